@@ -405,10 +405,7 @@ func exclusiveC10(c *Ctx) {
 			closes := P.CallsTo(b.fn, "builtin:close")
 			okc := len(sends) == 1 && len(closes) == 1 && P.AfterAll(b.fn, sends[0], an.In(closes)) && !P.InCycle(sends[0])
 			b.add("ONCE", "the runner's outcome is sent once and the channel closed", okc, "one send followed by close on every path", sends[0])
-			ifn, nilSucc, found := b.nilTestOf(func(v ssa.Value) bool {
-				_, isL := isLoad(v)
-				return isL && v.Type().String() == sends[0].(*ssa.Send).Chan.Type().String()
-			})
+			ifn, nilSucc, found := b.nilTestOf(sameChanVar(P, sends[0].(*ssa.Send).Chan))
 			okn := found && b.onlyViaEdge(sends[0], ifn, 1-nilSucc)
 			b.add("PATH", "start-style calls have no outcome to deliver", okn, "send reached only through outcome != nil", sends[0])
 		}
@@ -439,10 +436,7 @@ func exclusiveC10(c *Ctx) {
 		}
 		r.add("PATH", "a waiter copies the result only from a completed item", okc, "send reached only through complete == true", ws)
 		// ... only if there is an outcome channel, and then always
-		wifn, wnil, wfound := r.nilTestOf(func(v ssa.Value) bool {
-			_, isL := isLoad(v)
-			return isL && v.Type().String() == ws.Chan.Type().String()
-		})
+		wifn, wnil, wfound := r.nilTestOf(sameChanVar(P, ws.Chan))
 		okw := wfound && r.onlyViaEdge(ws, wifn, 1-wnil) && !P.PathExists(r.fn, wifn, an.IsReturn, an.Is(ws), cutEdge(wifn, wnil))
 		r.add("PATH", "a waiter with an outcome channel always gets the completed result", okw, pickS(okw, "the send is reached only through outcome != nil, and from there on every path", "a coalesced caller can be left without an outcome (or a start-style call sends on a nil channel and blocks for ever)"), ws)
 		excl := !P.PathExists(r.fn, ws, an.Is(a.work), nil, nil)
@@ -842,24 +836,28 @@ func exclusiveValueRule(c *Ctx) {
 	a.add("PROV", "the adapter resolves exactly once with the function's own result", ok,
 		pickS(ok, "resolve(value()) - one call of value, one call of resolve with both results, on every path", "the adapter does not pass value()'s result and error to resolve exactly once"))
 	works := P.CallsTo(q.fn, "ExclusiveWork")
-	okw := len(works) == 1
-	if okw {
-		okw = false
-		for _, s := range P.Sources(callArg(works[0], 0)) {
+	okw := len(works) >= 1
+	installs := false
+	isWork := map[ssa.Value]bool{}
+	for _, w := range works {
+		if wc, isC := w.(*ssa.Call); isC {
+			isWork[wc] = true
+		}
+		for _, s := range P.Sources(callArg(w, 0)) {
 			if mc, isMC := s.(*ssa.MakeClosure); isMC && mc.Fn == ssa.Value(a.fn) {
-				okw = true
+				installs = true
 			} else if fnv, isF := s.(*ssa.Function); isF && fnv == a.fn {
-				okw = true
+				installs = true
 			} else if !isNilConst(s) {
 				okw = false
-				break
 			}
 		}
-		for _, r := range returnsOf(q.fn) {
-			for _, v := range c.retVals(r, 0) {
-				if v != ssa.Value(works[0].(*ssa.Call)) {
-					okw = false
-				}
+	}
+	okw = okw && installs
+	for _, r := range returnsOf(q.fn) {
+		for _, v := range c.retVals(r, 0) {
+			if !isWork[v] {
+				okw = false
 			}
 		}
 	}
@@ -905,4 +903,31 @@ func rateLimitTimer(c *Ctx) {
 		}
 	}
 	q.add("WR", "the padding timer belongs to one execution", ok, pickS(ok, "time.NewTimer is called by the work wrapper itself and never Reset", "the rate limiter's timer is created outside the per-execution wrapper or re-armed with Reset: executions of different keys sharing the option would wait on one timer"), news...)
+}
+
+// sameChanVar: the tested value is a read of the variable the channel operand was read from (through direction
+// conversions), or - as before - a load of the very same type.
+func sameChanVar(P *an.Prog, ch ssa.Value) func(ssa.Value) bool {
+	strip := func(v ssa.Value) ssa.Value {
+		for {
+			if ct, ok := v.(*ssa.ChangeType); ok {
+				v = ct.X
+				continue
+			}
+			return v
+		}
+	}
+	cellOf := func(v ssa.Value) *ssa.Alloc {
+		if ld, ok := isLoad(strip(v)); ok {
+			return P.CellOf(ld.X)
+		}
+		return nil
+	}
+	want := cellOf(ch)
+	return func(v ssa.Value) bool {
+		if _, isL := isLoad(v); isL && v.Type().String() == ch.Type().String() {
+			return true
+		}
+		return want != nil && cellOf(v) == want
+	}
 }
